@@ -673,10 +673,15 @@ StepCall(h, e) ==
   ELSE [h EXCEPT !.op = o]
 
 \* expected local verdict on the request's arguments (C19)
+\* a string or binary field carries a two-byte length: nothing longer than 65535 bytes can be encoded (C09)
+FieldMax == 65535
+PropsTooLong(props) == \E k \in 1..Len(props) : Len(props[k].s) > FieldMax \/ Len(props[k].t) > FieldMax
 ArgsInvalid(o) ==
-  CASE o.name = "publish" -> ~ReqPropsOk(WireProps(o.e), PUBLISH)
-    [] o.name = "subscribe" -> o.e.filters = << >> \/ ~ReqPropsOk(o.e.props, SUBSCRIBE)
-    [] o.name = "unsubscribe" -> o.e.topics = << >> \/ ~ReqPropsOk(o.e.props, UNSUBSCRIBE)
+  CASE o.name = "publish" -> ~ReqPropsOk(WireProps(o.e), PUBLISH) \/ Len(o.e.topic) > FieldMax \/ PropsTooLong(WireProps(o.e))
+    [] o.name = "subscribe" -> o.e.filters = << >> \/ ~ReqPropsOk(o.e.props, SUBSCRIBE) \/ PropsTooLong(o.e.props)
+                               \/ \E i \in 1..Len(o.e.filters) : Len(o.e.filters[i].topic) > FieldMax
+    [] o.name = "unsubscribe" -> o.e.topics = << >> \/ ~ReqPropsOk(o.e.props, UNSUBSCRIBE) \/ PropsTooLong(o.e.props)
+                                 \/ \E i \in 1..Len(o.e.topics) : Len(o.e.topics[i]) > FieldMax
     [] o.name = "disconnect" -> o.e.hasprops /\ ~ReqPropsOk(o.e.props, DISCONNECT)
     [] OTHER -> FALSE
 
